@@ -42,6 +42,9 @@ class Space:
   def check_state(self, world, rec, trace):
     return False
 
+  def dispose(self, world):
+    """Releases external resources of a world (files); called by the engine when it is done with it."""
+
 
 class _Null:
   """A recorder that ignores everything (used while replaying a prefix)."""
@@ -98,16 +101,21 @@ def _expand(rec, item):
   # state itself is not corrupt (its content agrees with the model).
   space.check_state(w, rec, trace)
   out = []
-  for op in space.ops(w):
+  ops = space.ops(w)
+  space.dispose(w)
+  for op in ops:
     w2 = rebuild(space, init, hist)
     tr = dict(space=space.name, init=init, hist=list(hist), op=op)
-    bad = space.apply(w2, op, rec, tr)
-    rec.trans += 1
-    rec.evals += 1
-    if bad:
-      rec.stat('violating-transition(not expanded)')
-      continue
-    out.append((op, repr(space.canon(w2))))
+    try:
+      bad = space.apply(w2, op, rec, tr)
+      rec.trans += 1
+      rec.evals += 1
+      if bad:
+        rec.stat('violating-transition(not expanded)')
+        continue
+      out.append((op, repr(space.canon(w2))))
+    finally:
+      space.dispose(w2)
   return out
 
 
@@ -120,6 +128,7 @@ def explore(ctx, space, max_depth, max_states=None):
   for init in space.initials():
     w = space.build(init)
     c = repr(space.canon(w))
+    space.dispose(w)
     if c not in seen:
       seen[c] = 1
       frontier.append((init, (), c))
